@@ -574,6 +574,11 @@ class Exec(object):
         def go(vs, s):
             if not vs:
                 return self.val(s.alloc(HList(self.guess_elem_type(n, fr), None)), s)
+            if not all(isinstance(x, (VInt, VBool, VStr, VOpaque)) for x in vs):
+                # list of tuples / objects: concrete-length view only
+                lst = s.alloc(HList(None, None))
+                s.heap[lst.ref].items = list(vs)
+                return self.val(lst, s)
             et = type_of(vs[0])
             t = z3.Unit(term_of(vs[0]))
             for x in vs[1:]:
